@@ -21,8 +21,12 @@ func vfH_C14_Buckets() {
 // swept; update and del remove the index entry they can locate.
 func vfH_C14_Index() {
 	em := newExpirationMap[vfVal]()
+	em.lastCleanedBucketNum = cleanupBucket(vfTimeAbs("cleaned")) // the sweep has arbitrary progress
 	k, c := vfU64("k"), vfU64("c")
-	e1, e2 := vfTime("e1"), vfTimeOrZero("e2")
+	e1, e2 := vfTimeAbs("e1"), vfTimeAbs("e2")
+	if vfBool("e2zero") {
+		e2 = time.Time{}
+	}
 	home := func(t time.Time) int64 {
 		b := storageBucket(t)
 		return vfIteI64(b <= em.lastCleanedBucketNum, em.lastCleanedBucketNum+1, b)
@@ -30,9 +34,9 @@ func vfH_C14_Index() {
 	em.add(k, c, e1)
 	b1 := home(e1)
 	vfGhost(func() {
+		vfAssert(vfIndexedLive(em, k), "C14.indexed-in-a-bucket-still-to-be-swept")
 		cf, ok := em.buckets[b1][k]
 		vfAssert(ok && cf == c, "aux.C14.add-indexes")
-		vfAssert(b1 > em.lastCleanedBucketNum, "C14.indexed-in-a-bucket-still-to-be-swept")
 	})
 	vfBegin()
 	switch vfChoice(2) {
@@ -42,9 +46,9 @@ func vfH_C14_Index() {
 		vfGhost(func() {
 			if !e2.IsZero() {
 				b2 := home(e2)
+				vfAssert(vfIndexedLive(em, k), "C14.indexed-in-a-bucket-still-to-be-swept")
 				cf, ok := em.buckets[b2][k]
 				vfAssert(ok && cf == c2, "aux.C14.update-indexes-new")
-				vfAssert(b2 > em.lastCleanedBucketNum, "C14.indexed-in-a-bucket-still-to-be-swept")
 			}
 		})
 		vfReach("update")
@@ -56,6 +60,17 @@ func vfH_C14_Index() {
 		})
 		vfReach("del")
 	}
+}
+
+// vfIndexedLive: the key is indexed in some bucket that a future sweep will still visit (ghost).
+func vfIndexedLive(em *expirationMap[vfVal], k uint64) bool {
+	live := false
+	for bn, b := range em.buckets {
+		if _, ok := b[k]; ok {
+			live = vfOr(live, bn > em.lastCleanedBucketNum)
+		}
+	}
+	return live
 }
 
 // vfSweepStore wraps the store to observe (ghost) when sweeps start and when the watched value is
